@@ -3,5 +3,4 @@ CONSTANTS
   Universe = "LP"
   MaxLines = 3
 INVARIANT MachineOK
-INVARIANT GenInv
 CHECK_DEADLOCK FALSE
